@@ -63,3 +63,16 @@ Theorem C12_closed_value_is_case : forall root_pi dawson tab nbase i j k (zeta a
     v = ecase (zeta + a + b)%R (a * A)%R (b * B)%R (gbasis ROps vl g1a g1b h2) (snd c).
 Proof. exact closed_value_is_case. Qed.
 Print Assumptions C12_closed_value_is_case.
+
+(* The j-recurrence (hypothesis SRj of C12_case_value) FROM the definition of the integrals: if T i j k is the improper integral
+   over (0, inf) of r^k exp(-zeta r^2 - a (r-A)^2 - b (r-B)^2) M_i(2aAr) M_j(2bBr) (existence is the hypothesis), then
+   T(i, j+2, k) = T(i, j, k) - (2j+3)/(2 bB) T(i, j+1, k-1) for every i, j, k: three-term recurrence of M_l, linearity and
+   uniqueness of the integral (Radial/RadialRec.v). *)
+From Coquelicot Require Import Coquelicot.
+From LV Require Import Bessel.BesselSpec Radial.RadialRec.
+Theorem C12_recurrence_j_from_the_integrals : forall (zeta a b A B : R), (0 < b * B)%R ->
+  forall T : nat -> nat -> Z -> R,
+  (forall i j k, is_RInt_gen (F zeta a b A B i j k) (at_point 0%R) (Rbar_locally p_infty) (T i j k)) ->
+  forall i j k, T i (S (S j)) k = (T i j k - (2 * INR j + 3) / (2 * (b * B)) * T i (S j) (k - 1)%Z)%R.
+Proof. exact T_rec_j. Qed.
+Print Assumptions C12_recurrence_j_from_the_integrals.
